@@ -40,7 +40,7 @@ def serial_orders(threads):
 def _shallow(v):
     """Observation of a result: live synced containers are observed by kind only (they are views
     that legitimately reflect later writes); everything else exactly."""
-    if hasattr(v, "_load") and callable(v):
+    if env.is_synced(v):
         return "container:" + ("dict" if hasattr(v, "keys") else "list")
     if isinstance(v, tuple):
         return "(" + ",".join(_shallow(x) for x in v) + ")"
